@@ -16,9 +16,10 @@ POOL = [None, True, False, 0, 1, -1, 2, 3, 7, -7, 6, 2 ** 53 + 1, 2 ** 63 - 1, 0
 # one pair per branch of the primitives that the filter-level observables cannot see (a filter only records *that*
 # the callable raised or returned False): always run, in every tier
 FIXED_PAIRS = {
-    "sub": [(2 ** 53 + 1, 0.0), (2 ** 53 + 3, 0.0), (0.0, 2 ** 53 + 1), (2 ** 1024 - 1, 0.5), (10 ** 400, 0.5), (0.5, -(10 ** 400))],
+    "sub": [(True, 0.5), (0.5, True), (False, 2.5), (True, 1e-8), (2 ** 53 + 1, 0.0), (2 ** 53 + 3, 0.0), (0.0, 2 ** 53 + 1), (2 ** 1024 - 1, 0.5), (10 ** 400, 0.5), (0.5, -(10 ** 400))],
     "mod": [(2, -7), (-1, -7), (True, -7), (-7, 2), (-7.5, 2), (2.5, -1), (2 ** 53 + 1, 2.0), ("abc", ()), ("abc", (1,)), ("abc", [1]),
-            ("abc", {}), ("abc", 5), ("abc", None), (7, 0), (7.0, 0), (7, 0.0), (2 ** 1024, 2.5)],
+            ("abc", {}), ("abc", 5), ("abc", None), (7, 0), (7.0, 0), (7, 0.0), (2 ** 1024, 2.5),
+            (10 ** 400, 0.0), (2 ** 1024, 0.0), (-(10 ** 400), 0.0), (0.0, 10 ** 400), (True, 2.5), (2.5, True), (False, 0.5), (7.5, True)],
     "lt": [((1,), (1, "a")), ((), ()), ((1, 2), (1, 3)), ([1], [1, 2]), ("a", "ab"), ((1, "a"), (1, 2)), ([1], (1,)), (True, 2), (None, 1)],
     "le": [((1,), (1, "a")), ((), ()), ((1, 2), (1, 3)), ([1, 2], [1]), ("ab", "a"), (1.0, 1)],
     "gt": [((1,), (1, "a")), ((1, 3), (1, 2)), ([1, 2], [1]), ("b", "ab"), (2 ** 53 + 1, 9007199254740992.0)],
@@ -27,7 +28,7 @@ FIXED_PAIRS = {
                 ({"a": 1}, ["a"]), ([1, 2], 1.0), ((1, 2), 0), ("ab", 0)],
     "contains": [("", ""), ("", "abc"), ("a", ""), ("b", "abc"), (1, "abc"), (1, [True]), (1.0, (1,)), ([1], [[1.0]]), ("a", {"a": 1}),
                  ([1], {"a": 1}), (1, {True: 0}), (None, [None])],
-    "eq": [([1, 1], [1]), ({1: "a"}, {True: "a"}), ({1: "a"}, {1.0: "a", 2: "b"}), ((1, [2]), (1, [2.0])), (2 ** 53 + 1, 9007199254740992.0),
+    "eq": [(True, 1.0), (1.0, True), (False, 0.0), ({"a": 1, "b": 2}, {"b": 2, "a": 1}), ({"a": 1}, {"a": 1.0}), ({1: "x"}, {"1": "x"}), ([1, 1], [1]), ({1: "a"}, {True: "a"}), ({1: "a"}, {1.0: "a", 2: "b"}), ((1, [2]), (1, [2.0])), (2 ** 53 + 1, 9007199254740992.0),
            (10 ** 400, 1e300), ("a", ("a",))],
     "ne": [([1, 1], [1]), ({"a": 1, "b": 2}, {"b": 2, "a": 1}), (0, False), (0.0, -0)],
     "isinstance": [(True, int), (1, bool), ([], (list, dict)), ({}, ()), (1, (str, (int,))), (1, 1), (int, int), (None, type(None))],
